@@ -20,7 +20,7 @@ func init() {
 		},
 		N: func(tier string) int {
 			if tier == "quick" {
-				return 6144
+				return 30720
 			}
 			return 200000
 		},
